@@ -107,6 +107,8 @@ class World:
         self.dead = False
         self.last_snap = None
         self.serial_noise = None  # a random.Random: send grammar-equivalent serialisations
+        self.lost_barrier = None
+        self.stalled = None
         self.actions = []  # structured actions in order (for replaying prefixes)
         self.noise_kinds = collections.Counter()
 
@@ -188,6 +190,8 @@ class World:
         """M sends one PRIVMSG to all `nicks`; returns {cid: [lines before the marker]}.
         A client that is closed by the server meanwhile is reported with kind in self._closed."""
         self.step_no += 1
+        self.lost_barrier = None
+        self.stalled = None
         tag = "SYNC%d" % self.step_no
         targets = [n for n in nicks if n != MON]
         inbox = {}
@@ -218,6 +222,21 @@ class World:
                 closed[cid] = ex.kind
                 inbox[cid] = inbox.get(cid, []) + ex.lines
             except wire.Timeout as ex:
+                # the marker did not arrive within the watchdog period: is the connection served at all?
+                try:
+                    c.ping("lost%d" % self.step_no, 5.0)
+                    alive = True
+                except (wire.Closed, wire.Timeout):
+                    alive = False
+                if alive:
+                    # the connection answers, but a PRIVMSG addressed to its registered nick never came
+                    self.lost_barrier = (cid, n, tag)
+                    inbox[cid] = inbox.get(cid, []) + getattr(ex, "lines", [])
+                    continue
+                if self.fresh_connection_served():
+                    self.stalled = (cid, n)
+                    inbox[cid] = inbox.get(cid, []) + getattr(ex, "lines", [])
+                    continue
                 raise Inconclusive("client %s did not see barrier %s (got %d lines)"
                                    % (cid, tag, len(getattr(ex, "lines", []))))
         return inbox, closed
@@ -496,6 +515,18 @@ class World:
             inbox, closed = self.barrier(nicks)
         finally:
             self.model.owner = save_owner
+        if self.lost_barrier is not None:
+            k, n, tag = self.lost_barrier
+            self.violate("message-lost", exp.props | {"C01", "C05"}, exp.shape,
+                         "a PRIVMSG of the monitor client to the registered nick %s (connection %s, which answers PINGs) "
+                         "never arrived (%s) after %r" % (n, k, tag, self.history[-1][1] if self.history else ""))
+            self.dead = True
+        if self.stalled is not None:
+            k, n = self.stalled
+            self.violate("connection-stalled", exp.props | {"C05", "C18"}, exp.shape,
+                         "connection %s (%s) answers nothing for %.0f s while a fresh connection is served at once, after %r"
+                         % (k, n, self.watchdog, self.history[-1][1] if self.history else ""))
+            self.dead = True
         if cid is not None:
             inbox[cid] = list(actor_lines) + inbox.get(cid, [])
             if actor_closed:
